@@ -37,6 +37,20 @@ theorem old_forkPoint_delivers_twice_empty_name :
     specDelivered "" "t" 0 [.start ⟨"t", [("d", "r")], [{}]⟩, .write "d" "r" [⟨7, "", []⟩]] = [7] := by
   decide
 
+/-- Second defect of the snapshot (repaired by the second `fix:` commit of findings/C02.txt): when `StartTask` fails AFTER `newFork`
+(the task's snapshot cannot be loaded) the error return left the new edge registered although no task executes: the fork table holds
+an entry for an id that is not executing, and the next point of that (db, rp) is collected on an edge nobody reads. (On the real code
+the 1001st such point blocks the forking goroutine for ever, so EVERY running task stops receiving:
+corpus/C02/failed-start-blocks-ingestion.ops.) -/
+theorem old_failed_start_leaves_stale_subscription :
+    let d : TaskDef := ⟨"u", [("d", "r")], [{}]⟩
+    let s := startTaskFailOld (init "") d
+    s.tasks "u" = none ∧ (s.forks ("d", "r", "")).map (·.1) = ["u"] ∧
+    ((forkPoint s ⟨1, "d", "r", "m", []⟩).log.map (·.1.task.id)) = ["u"] ∧
+    -- the repaired code leaves nothing behind
+    (startTaskFail (init "") d).forks ("d", "r", "") = [] ∧ (forkPoint (startTaskFail (init "") d) ⟨1, "d", "r", "m", []⟩).log = [] := by
+  decide
+
 /-! ### The fork table -/
 
 /-- **The fork table is exactly the set of subscriptions of the executing tasks** — after every well-formed history: an entry
@@ -148,6 +162,7 @@ def sample : List Op :=
    .write "d" "" [⟨1, "cpu", [0]⟩, ⟨2, "mem", []⟩],
    .stop "u",
    .write "d" "autogen" [⟨3, "cpu", []⟩, ⟨4, "mem", [0]⟩],
+   .startfail ⟨"u", [("d", "autogen")], [{}]⟩,
    .write "e" "r2" [⟨5, "cpu", [0]⟩],
    .delete "t",
    .write "d" "autogen" [⟨6, "cpu", [0]⟩]]
@@ -159,7 +174,7 @@ example : WF sample ∧ (writtenIds sample).Nodup ∧
 example : WF (sample.filter (relevant "t")) ∧ (sample.filter (relevant "t")).length < sample.length := by decide
 
 /-- `never_sends_on_closed_edge` is not vacuous: edges do get closed. -/
-example : (run "autogen" sample).closed.length = 2 ∧ (run "autogen" sample).sentOnClosed = false := by decide
+example : (run "autogen" sample).closed.length = 3 ∧ (run "autogen" sample).sentOnClosed = false := by decide
 
 /-- Why `WF` is a hypothesis: `StartTask` on an id that is executing (under another definition) leaves the old edge subscribed,
 so the old incarnation keeps recording under the same node names — the model reproduces this misuse, the spec does not allow it. -/
